@@ -125,6 +125,10 @@ def enum_ops(s, *, invalid=True):
                     if typed:
                         op["kind"] = src.kind  # the kind-less route is a listed C07 finding
                     yield op
+                nid_op = {"op": "addnode", "parent": p, "src": src.uid, "deep": deep, "before": None, "node_id": 424242}
+                if typed:
+                    nid_op["kind"] = src.kind
+                yield nid_op
                 if not typed:
                     yield {"op": "addnode", "parent": p, "src": src.uid, "deep": deep, "before": None, "via": "copy_to"}
             if not typed:
